@@ -429,6 +429,13 @@ def suite_real_lifecycle(report, tier, seed, prop="C12"):
         # extreme configuration values: the largest durations the builders accept must not kill the event loop
         corpus += [(f"drv.run kind={kind} v=5 backoff=10 ctimeout=max | start;waitwire:1;stop;sleep:400;mark:settled;sleep:150", kind, "ok"),
                    (f"drv.run kind={kind} v=5 backoff=max maxbackoff=max ctimeout=150 refuse=1 | start;sleep:100;stop;sleep:400;mark:settled;sleep:150", kind, "refuse-some")]
+    # close is terminal whenever the request arrives: the threaded loop naps up to `idle` ms, so a close (and a start right
+    # behind it) submitted during the nap is consumed in the very iteration in which the reconnect timer has expired / the
+    # transport has come up.  The loop is provably asleep when the requests arrive, so nothing here depends on a race.
+    corpus += [("drv.run kind=threaded v=5 idle=500 backoff=300 maxbackoff=300 ctimeout=150 refuse=100000 | start;sleep:250;close;sleep:900;mark:settled;sleep:150", "threaded", "close-terminal"),
+               ("drv.run kind=threaded v=5 idle=500 backoff=300 maxbackoff=300 ctimeout=150 refuse=100000 | start;sleep:250;close;start;sleep:1200;mark:settled;sleep:400", "threaded", "close-terminal"),
+               ("drv.run kind=threaded v=5 idle=500 cdelay=200 backoff=300 ctimeout=1000 | start;sleep:50;close;start;sleep:900;mark:settled;sleep:150", "threaded", "close-terminal"),
+               ("drv.run kind=tokio v=5 backoff=300 maxbackoff=300 ctimeout=150 refuse=100000 | start;sleep:250;close;start;sleep:1200;mark:settled;sleep:400", "tokio", "close-terminal")]
     cases = corpus + cases
     impl = harness_batch_parallel([c[0] for c in cases])
     mon_ok = True
@@ -446,6 +453,11 @@ def suite_real_lifecycle(report, tier, seed, prop="C12"):
             if not e.startswith("|"):
                 report.count("real-lifecycle.event." + e.split(".")[0])
         verdict = lifecycle_verdict(events)
+        if not verdict and transport == "close-terminal" and "|close|" in events:
+            # the requests arrived while the loop was asleep: a client that honours the close makes no attempt after it
+            after = [e for e in events[events.index("|close|") + 1:] if e in ("Attempt", "Success")]
+            if after:
+                verdict = ("attempt-after-close", f"close() was requested while the loop slept; afterwards the client still emitted {after}")
         if verdict:
             mon_ok = False
             report.add_finding(Finding(prop, "mon:real-lifecycle", {"clause": verdict[0], "kind": kind}, f"{kind} client: {verdict[1]}", [req, "# impl: events=" + fa.get("events", "")]))
